@@ -1,0 +1,45 @@
+//go:build verif
+
+package recovery
+
+import (
+	"sync"
+	"time"
+)
+
+// VerifObserver receives one call per load attempt and one per requested wait
+// of the retry loop.
+type VerifObserver struct {
+	OnAttempt func(attempt int, err error)
+	OnDelay   func(d time.Duration)
+}
+
+var (
+	verifMu  sync.Mutex
+	verifObs *VerifObserver
+)
+
+// VerifSetObserver installs (or, with nil, removes) the observer.
+func VerifSetObserver(o *VerifObserver) {
+	verifMu.Lock()
+	verifObs = o
+	verifMu.Unlock()
+}
+
+func verifOnAttempt(attempt int, err error) {
+	verifMu.Lock()
+	o := verifObs
+	verifMu.Unlock()
+	if o != nil && o.OnAttempt != nil {
+		o.OnAttempt(attempt, err)
+	}
+}
+
+func verifOnDelay(d time.Duration) {
+	verifMu.Lock()
+	o := verifObs
+	verifMu.Unlock()
+	if o != nil && o.OnDelay != nil {
+		o.OnDelay(d)
+	}
+}
